@@ -242,13 +242,11 @@ func (ch *channel) ReceiveAsync(ctx async.Context) ([]byte, bool, status.Status)
 	s.recvBytes.Add(-recv)
 	if !s.closed.Load() {
 		st := s.sender.sendWindow(ctx, recv)
-		switch st.Code {
-		case status.CodeOK,
-			status.CodeCancelled,
-			status.CodeClosed,
-			status.CodeEnd:
-		default:
-			return nil, false, st // unreachable
+		if !st.OK() {
+			// The delta has not been sent (context cancelled/timed out, connection closed),
+			// keep it for the next window update. The message is already dequeued
+			// and must be returned in any case.
+			s.recvBytes.Add(recv)
 		}
 	}
 	return data, true, status.OK
